@@ -20,9 +20,17 @@ import (
 var (
 	e1 = stderrors.New("first failure")
 	e2 = stderrors.New("second failure")
+	// an error with an empty text, and one in the causer convention with nothing underneath: both are failures
+	eEmpty    = stderrors.New("")
+	eRootless = &rootless{}
 )
 
-var results = []string{"ok0", "ok1", "e1", "wrapped-e1", "e2", "e1+outputs"}
+type rootless struct{}
+
+func (*rootless) Error() string { return "rootless failure" }
+func (*rootless) Cause() error  { return nil }
+
+var results = []string{"ok0", "ok1", "e1", "wrapped-e1", "e2", "e1+outputs", "empty-text", "rootless"}
 var filters = []string{"PoisonQueue", "all", "none", "is-e1", "text-second", "identical-to-e1", "wrapped-only"}
 var metas = []string{"empty", "some", "pre-poisoned"}
 
@@ -40,6 +48,10 @@ func handlerResult(kind string, m *message.Message) ([]*message.Message, error) 
 		return nil, e2
 	case "e1+outputs":
 		return hx.Outputs(m, 1), e1
+	case "empty-text":
+		return nil, eEmpty
+	case "rootless":
+		return nil, eRootless
 	}
 	return nil, nil
 }
